@@ -134,8 +134,18 @@ def _classify_ext_diff(case, obs, diffs):
     type_fields = {"cls", "primitive", "type_name", "values", "type"}
     if all("fields" in x and set(x["fields"]) <= type_fields for x in diffs):
         uids = {x["uid"] for x in diffs}
+        # the entity that differs may be a COPY of the data created under the stale type identifier (thorough run 4): the
+        # caller-supplied types are named t<k><PRIMITIVE> by the driver, so the live type name tells which creation to look at
+        import re as _re
+
+        named = set()
+        for x in diffs:
+            m = _re.fullmatch(r"t(\d+)(FLOAT|INTEGER)", str(x.get("live", {}).get("type_name", "")))
+            if m:
+                named.add((int(m.group(1)), {"FLOAT": "float", "INTEGER": "int"}[m.group(2)]))
         for i, (op, st) in enumerate(zip(case["ops"], obs["steps"])):
-            if op["op"] == "add_data" and op.get("type_uid") and st["info"].get("target") in uids:
+            if op["op"] == "add_data" and op.get("type_uid") and st["outcome"] == "done" and \
+                    (st["info"].get("target") in uids or (op["type_uid"], op["dtype"]) in named):
                 j = i - 1
                 listed = False
                 # "the removal of the previous user": remove_entity or parent.remove_children (thorough run 2, ext case 2205:
